@@ -203,6 +203,13 @@ func childCrypto(b run.Batch, r *ev.Result) {
 		if glow.Verify(glow.PublicKey(k.Pub), append(append([]byte(nil), m.b...), 0), s1) || (len(m.b) > 0 && glow.Verify(glow.PublicKey(k.Pub), m.b[:len(m.b)-1], s1)) {
 			r.Violationf("verify-accepts-other-length", replay(nil), "Verify succeeds for the message with one byte appended or removed")
 		}
+		// the algebraic twin (r, N-s) satisfies the raw ECDSA equation but is a different 64-byte
+		// signature that nobody signed: "changing any signed bit makes verification fail" covers it
+		r.Eval(1)
+		r.Count("verify.twin_signatures", 1)
+		if glow.Verify(glow.PublicKey(k.Pub), m.b, glow.Signature(refenc.TwinSig([64]byte(s1)))) {
+			r.Violationf("verify-accepts-malleable-twin-signature", replay(map[string]interface{}{"sig": hex.EncodeToString(s1[:])}), "Verify accepts the twin (r, N-s) of a valid signature")
+		}
 		// signatures by K never verify under K'
 		for _, o := range others {
 			k2 := o
